@@ -101,3 +101,51 @@ CHECKS["C04"] = {
     "outside": ["non-ASCII FMSPC strings (strings.EqualFold is modelled for ASCII)", "whether a case-variant PCE-ID matches is asserted exactly as the anchor states (exact match)"],
     "assumptions": ["strings.EqualFold = ASCII case folding (native model)", "encoding/hex.EncodeToString native model (lower-case hex)", "logger no-op"],
 }
+
+CHECKS["C13"] = {
+    "groups": ["c13"],
+    "quick": {"match": "^H13", "budget": 600},
+    "thorough": {"match": "^[HT]13", "budget": 3000, "query_timeout_ms": 120000},
+    "seeded_perm": "harness/c13/pcs/seed_gen.go",
+    "what": "pcs.PckCertificateExtensions (findMatchingExtension, extractSgxExtensions, extractAsn1SequenceTcbExtension, extractTcbExtension, "
+            "extractAsn1OctetStringExtension, asn1OctetString, asn1U8, asn1U16, sgxTcbComponentOid, ObjectIdentifier.Equal) with encoding/asn1.Unmarshal "
+            "replaced by a contract stub that delivers the decoded structure the harness attached to each DER blob; all 18 TCB values symbolic int64, "
+            "CPUSVN / PPID / PCE-ID / FMSPC of symbolic length around the required size and symbolic content; orders: 5 permutations of the 18 TCB "
+            "elements (one derived from VERIF_SEED) x 4 of the sub-extensions; n<=3 elements with symbolic OID arc 1..20; malformed variants",
+    "bounds": {"tcb_element_orders": "4 fixed + 1 seeded permutation", "sub_extension_orders": "4", "symbolic_oid_elements": "n<=3, arc 1..20"},
+    "outside": ["encoding/asn1's DER decoding itself", "certificates whose SGX extension omits an element while keeping the element count",
+                "order independence for all 18! orders: decided for 5 orders plus, for n<=3 elements with symbolic OIDs, that each element updates exactly its own slot"],
+    "assumptions": ["encoding/asn1.Unmarshal decodes DER correctly (stub delivers the attached structure, fails on type mismatch)", "encoding/hex.EncodeToString native model"],
+    "no_native_replay": ["H13a_ValuesAnyOrder", "H13b_NestedOctetStrings", "H13c_Malformed", "H13d_SymbolicOidArcs"],
+}
+
+CHECKS["C17"] = {
+    "groups": ["c17"],
+    "quick": {"match": "^H17", "budget": 600},
+    "thorough": {"match": "^[HT]17", "budget": 3000, "query_timeout_ms": 120000},
+    "replay": "model",
+    "what": "rtmr.ExtendDigestClient / ExtendEventLogClient with index full int64, digest of symbolic length 0..64, hash algorithm symbolic, event "
+            "log of symbolic length 0..128, against a model TSM (harness configfsi.Client) with four registers of symbolic content; the dependency "
+            "go-configfs-tsm/rtmr.ExtendDigest is replaced by its contract; asserted: invalid request => error and zero operations, valid => exactly "
+            "one extend of exactly the digest (or SHA-384 of the log) on the requested index; one inductive step from an arbitrary register state",
+    "bounds": {"index": "full int64", "digest_length": "0..64", "event_log_length": "0..128"},
+    "outside": ["go-configfs-tsm's own entry lookup / creation (replaced by its documented contract)", "the kernel's configfs semantics"],
+    "assumptions": ["rtmr.ExtendDigest of go-configfs-tsm v0.3.2 performs one digest write on the entry bound to the index (contract stub)",
+                    "SHA-384 is a deterministic function of the event log (uninterpreted function)"],
+}
+
+CHECKS["C20"] = {
+    "groups": ["c20"],
+    "quick": {"match": "^H20", "budget": 600},
+    "thorough": {"match": "^[HT]20", "budget": 3000, "query_timeout_ms": 120000},
+    "replay": "model",
+    "what": "trust.RetryHTTPSGetter.Get and DefaultHTTPSGetter with symbolic Timeout and MaxRetryDelay, a wrapped getter whose every call takes a "
+            "symbolic duration >= 0 and fails or succeeds by a symbolic boolean, and a model clock: context.WithTimeout / time.After are model "
+            "channels with a fire time and the SSA select picks any channel ready at the earliest fire time; asserted: first success returned "
+            "as the very objects and no later call, every wait > 0 and <= MaxRetryDelay, no attempt starts after the deadline, on persistent "
+            "failure an error by the deadline or the end of the attempt in flight, attempts <= K",
+    "bounds": {"attempts": "K = 6 quick, 12 thorough (unwinding assertion; Timeout <= (K-2)*min(4s, MaxRetryDelay))", "MaxRetryDelay": "> 0"},
+    "outside": ["MaxRetryDelay <= 0 (busy loop / probabilistic termination: the statement's two requirements contradict each other there)",
+                "wall-clock behaviour of the real runtime and scheduler", "delay doubling overflow (needs > 2^32 s of waiting)"],
+    "assumptions": ["Go select semantics: blocks until a case is ready, picks any ready case (model)", "context.WithTimeout's Done channel fires at the deadline (model)"],
+}
